@@ -10,6 +10,9 @@
 // The driver replays the trace on the models and checks the premises of the safety theorem
 // (C22/Model.v) on the implementation's answers, and that no two finalised blocks conflict.
 //
+// A second mode (keyword w, documented above c22RunMulti below) plays SEVERAL rounds per case through
+// the real Service.initiateRound.
+//
 // input (numbers hex):  s <parents> <nvoters> <nbyz> <bests> <ops>
 //   parents  comma list, parent index of block 1, 2, ...; "-" if none (block 0 = genesis = finalised head)
 //   nbyz     the last nbyz voters are Byzantine
@@ -61,6 +64,10 @@ type c22BlockState struct {
 	best      common.Hash
 	finalised []common.Hash
 	head      *types.Header
+	// (round, set id) -> finalised hash, as dot/state records it (multi-round mode: initiateRound
+	// reads the highest finalised round and its header)
+	finRound map[[2]uint64]common.Hash
+	highest  [2]uint64
 }
 
 func (b *c22BlockState) GenesisHash() common.Hash { return b.genesis }
@@ -119,7 +126,14 @@ func (b *c22BlockState) LowestCommonAncestor(x, y common.Hash) (common.Hash, err
 }
 func (b *c22BlockState) HasFinalisedBlock(round, setID uint64) (bool, error) { return false, nil }
 func (b *c22BlockState) GetFinalisedHeader(round, setID uint64) (*types.Header, error) {
-	return b.head, nil
+	if b.finRound == nil {
+		return b.head, nil
+	}
+	h, ok := b.finRound[[2]uint64{round, setID}]
+	if !ok {
+		return nil, database.ErrNotFound
+	}
+	return b.headers[h], nil
 }
 func (b *c22BlockState) GetRoundAndSetID() (uint64, uint64) { return 0, 0 }
 func (b *c22BlockState) GetFinalisedHash(round, setID uint64) (common.Hash, error) {
@@ -127,6 +141,12 @@ func (b *c22BlockState) GetFinalisedHash(round, setID uint64) (common.Hash, erro
 }
 func (b *c22BlockState) SetFinalisedHash(h common.Hash, round, setID uint64) error {
 	b.finalised = append(b.finalised, h)
+	if b.finRound != nil {
+		b.finRound[[2]uint64{round, setID}] = h
+		if setID > b.highest[1] || (setID == b.highest[1] && round > b.highest[0]) {
+			b.highest = [2]uint64{round, setID}
+		}
+	}
 	return nil
 }
 func (b *c22BlockState) BestBlockHeader() (*types.Header, error) { return b.headers[b.best], nil }
@@ -143,7 +163,12 @@ func (b *c22BlockState) GetFinalisedNotifierChannel() chan *types.FinalisationIn
 func (b *c22BlockState) FreeFinalisedNotifierChannel(ch chan *types.FinalisationInfo) {}
 func (b *c22BlockState) SetJustification(hash common.Hash, data []byte) error   { return nil }
 func (b *c22BlockState) BestBlockNumber() (uint, error)                          { return b.headers[b.best].Number, nil }
-func (b *c22BlockState) GetHighestRoundAndSetID() (uint64, uint64, error)        { return 0, 0, nil }
+func (b *c22BlockState) GetHighestRoundAndSetID() (uint64, uint64, error) {
+	if b.finRound == nil {
+		return 0, 0, nil
+	}
+	return b.highest[0], b.highest[1], nil
+}
 func (b *c22BlockState) BestBlockHash() common.Hash                              { return b.best }
 func (b *c22BlockState) GetRuntime(h common.Hash) (runtime.Instance, error)      { return nil, errC22NoRuntime }
 func (b *c22BlockState) GetJustification(hash common.Hash) ([]byte, error)       { return nil, database.ErrNotFound }
@@ -285,6 +310,9 @@ type c22Msg struct {
 func c22Run(in string) string {
 	c22Init()
 	f := strings.Split(in, " ")
+	if len(f) == 6 && f[0] == "w" {
+		return c22RunMulti(f)
+	}
 	if len(f) != 6 || f[0] != "s" {
 		return "err:badinput"
 	}
@@ -581,16 +609,466 @@ func c22Case(r *vu.RNG) string {
 			ops = append(ops, fmt.Sprintf("f%x", i))
 		}
 	}
+	if len(ops) == 0 {
+		ops = []string{"f0"}
+	}
 	return fmt.Sprintf("s %s %x %x %s %s", c22Join(parents), n, nbyz, c22Join(bests), strings.Join(ops, ","))
 }
 
 func c22Gen(r *vu.RNG, n int, emit func(string)) {
 	for i := 0; i < n; i++ {
-		emit(c22Case(r))
+		if i%3 == 2 {
+			emit(c22CaseMulti(r.Fork()))
+		} else {
+			emit(c22Case(r))
+		}
 	}
 }
 
+// multi-round case: 2-3 rounds; in every round the honest voters prevote, messages are delivered
+// to each voter with a per-case probability (loss) in a shuffled order (reordering), the voters
+// try to precommit (twice, with more deliveries in between), attempt to finalise and start the
+// next round; Byzantine voters sign votes (also equivocating ones, also for other rounds); the
+// preferred best block of every voter changes from round to round (best-chain switches).
+func c22CaseMulti(r *vu.RNG) string {
+	k := 3 + r.Intn(7)
+	parents := c22Tree(r, k)
+	n := 4 + r.Intn(4)
+	if r.Chance(1, 6) {
+		n = 1 + r.Intn(7)
+	}
+	tol := (n - 1) / 3
+	nbyz := r.Intn(tol + 1)
+	if r.Chance(1, 2) {
+		nbyz = tol
+	}
+	if r.Chance(1, 14) && n >= 3 {
+		nbyz = tol + 1
+	}
+	nh := n - nbyz
+	rounds := 2 + r.Intn(2)
+	focus := r.Intn(k)
+	var bestParts []string
+	var focuses []int
+	for ri := 0; ri < rounds; ri++ {
+		below := c22Below(parents, focus)
+		focuses = append(focuses, focus)
+		b := make([]uint64, nh)
+		for i := range b {
+			switch r.Intn(6) {
+			case 0:
+				b[i] = uint64(r.Intn(k))
+			case 1: // a sibling fork: a descendant of the focus's parent
+				p := 0
+				if focus > 0 {
+					p = int(parents[focus-1])
+				}
+				sib := c22Below(parents, p)
+				b[i] = uint64(sib[r.Intn(len(sib))])
+			default:
+				b[i] = uint64(below[r.Intn(len(below))])
+			}
+		}
+		bestParts = append(bestParts, c22Join(b))
+		// next round: usually deeper on the same chain, sometimes elsewhere
+		if r.Chance(2, 3) {
+			focus = below[r.Intn(len(below))]
+		} else {
+			focus = r.Intn(k)
+		}
+	}
+	pDeliver := 10 // out of 10
+	switch r.Intn(3) {
+	case 0:
+		pDeliver = 5 + r.Intn(3)
+	case 1:
+		pDeliver = 8 + r.Intn(2)
+	}
+	var ops []string
+	msgs := 0
+	deliver := func(lo int) {
+		type dm struct{ i, m int }
+		var ds []dm
+		for i := 0; i < nh; i++ {
+			for m := lo; m < msgs; m++ {
+				if r.Intn(10) < pDeliver {
+					ds = append(ds, dm{i, m})
+				}
+			}
+		}
+		for x := len(ds) - 1; x > 0; x-- {
+			y := r.Intn(x + 1)
+			ds[x], ds[y] = ds[y], ds[x]
+		}
+		for _, d := range ds {
+			ops = append(ops, fmt.Sprintf("d%x.%x", d.i, d.m))
+		}
+	}
+	byzVotes := func(stage string, ri int) {
+		for j := nh; j < n; j++ {
+			if !r.Chance(4, 5) {
+				continue
+			}
+			votes := 1
+			if r.Chance(1, 3) {
+				votes = 2
+			}
+			for v := 0; v < votes; v++ {
+				below := c22Below(parents, focuses[ri])
+				b := below[r.Intn(len(below))]
+				if r.Chance(1, 3) {
+					b = r.Intn(k)
+				}
+				rr := ri
+				if r.Chance(1, 10) {
+					rr = r.Intn(rounds + 1)
+				}
+				ops = append(ops, fmt.Sprintf("b%x.%s.%x.%x", j, stage, b, rr))
+				msgs++
+			}
+		}
+	}
+	for ri := 0; ri < rounds; ri++ {
+		lo := msgs
+		for i := 0; i < nh; i++ {
+			if r.Chance(9, 10) {
+				ops = append(ops, fmt.Sprintf("v%x", i))
+				msgs++
+			}
+		}
+		byzVotes("p", ri)
+		deliver(lo)
+		for rep := 0; rep < 2; rep++ {
+			for i := 0; i < nh; i++ {
+				if r.Chance(9, 10) {
+					ops = append(ops, fmt.Sprintf("c%x", i))
+					msgs++
+				}
+			}
+			if rep == 0 {
+				byzVotes("c", ri)
+			}
+			deliver(lo)
+		}
+		for i := 0; i < nh; i++ {
+			ops = append(ops, fmt.Sprintf("f%x", i))
+		}
+		if r.Chance(1, 3) { // late deliveries, another attempt
+			deliver(lo)
+			for i := 0; i < nh; i++ {
+				ops = append(ops, fmt.Sprintf("f%x", i))
+			}
+		}
+		for i := 0; i < nh; i++ {
+			if r.Chance(9, 10) {
+				ops = append(ops, fmt.Sprintf("n%x", i))
+			}
+		}
+		if r.Chance(1, 2) { // stale messages of the finished round reach voters of the next one
+			for x := 0; x < 3 && msgs > 0; x++ {
+				ops = append(ops, fmt.Sprintf("d%x.%x", r.Intn(nh), r.Intn(msgs)))
+			}
+		}
+	}
+	return fmt.Sprintf("w %s %x %x %s %s", c22Join(parents), n, nbyz, strings.Join(bestParts, ";"), strings.Join(ops, ","))
+}
+
 func TestVerifC22(t *testing.T) { vu.Run(t, "C22", 300, c22Gen, c22Run) }
+
+// ---------------------------------------------------------------------------------------------
+// multi-round mode
+//
+// input:  w <parents> <nvoters> <nbyz> <bests> <ops>
+//   bests    rounds separated by ";", each a comma list with the PREFERRED best block of honest
+//            voter 0, 1, ... while it is in round index 0, 1, ... (the last entry repeats).  The
+//            voter's best block in a round is the preferred block when that descends from the
+//            voter's finalised head, else the head itself (dot/state prunes the other forks).
+//   ops      v<i> c<i> f<i> d<i>.<k> as in the single-round mode, acting in voter i's CURRENT round;
+//            n<i>                  voter i starts its next round (the real Service.initiateRound)
+//                                  if it has finalised a block in its current round, else "wait"
+//            b<j>.<p|c>.<blk>.<r>  Byzantine voter j signs a vote of round index r
+//   every pool message carries the round it was signed in; validateVoteMessage classifies it against
+//   the receiver's current round.  Commit messages and catch-up are not simulated (a legitimate
+//   schedule: they are lost), the primary's proposal message neither (its own prevote is its best
+//   block in both cases).
+// observed: as in the single-round mode, plus  f: "done" when the voter already finalised in this
+//   round;  n: r<new round index> | wait | e<class>
+func c22RunMulti(f []string) string {
+	parents := c22List(f[1])
+	k := len(parents) + 1
+	n := int(vu.UnX(f[2]))
+	nbyz := int(vu.UnX(f[3]))
+	nh := n - nbyz
+	if n < 1 || n > c22Keys || nbyz < 0 || nh < 1 {
+		return "err:badinput"
+	}
+	var bests [][]uint64
+	for _, part := range strings.Split(f[4], ";") {
+		l := c22List(part)
+		if len(l) != nh {
+			return "err:badinput"
+		}
+		for _, b := range l {
+			if int(b) >= k {
+				return "err:badinput"
+			}
+		}
+		bests = append(bests, l)
+	}
+	hdr := make([]*types.Header, k)
+	index := make(map[common.Hash]int)
+	hdr[0] = types.NewHeader(common.Hash{}, common.Hash{}, common.Hash{}, 0, types.NewDigest())
+	index[hdr[0].Hash()] = 0
+	for i := 1; i < k; i++ {
+		p := int(parents[i-1])
+		if p >= i {
+			return "err:badinput"
+		}
+		hdr[i] = types.NewHeader(hdr[p].Hash(), common.Hash{}, common.Hash{byte(i), 0x22}, hdr[p].Number+1, c22Digest)
+		index[hdr[i].Hash()] = i
+	}
+	isAnc := func(a, b int) bool { // a is b or an ancestor of b
+		for b > a {
+			b = int(parents[b-1])
+		}
+		return a == b
+	}
+	voters := make([]Voter, n)
+	for i := 0; i < n; i++ {
+		voters[i] = Voter{Key: *c22Keypairs[i].Public().(*ed25519.PublicKey), ID: uint64(i)}
+	}
+	svc := make([]*Service, nh)
+	bss := make([]*c22BlockState, nh)
+	ridx := make([]int, nh) // current round index of each honest voter
+	setBest := func(v int) {
+		r := ridx[v]
+		if r >= len(bests) {
+			r = len(bests) - 1
+		}
+		want := int(bests[r][v])
+		head := index[svc[v].head.Hash()]
+		if !isAnc(head, want) {
+			want = head
+		}
+		bss[v].best = hdr[want].Hash()
+	}
+	for v := 0; v < nh; v++ {
+		bs := &c22BlockState{headers: make(map[common.Hash]*types.Header)}
+		bs.bt = blocktree.NewBlockTreeFromRoot(hdr[0])
+		bs.genesis = hdr[0].Hash()
+		bs.headers[hdr[0].Hash()] = hdr[0]
+		for i := 1; i < k; i++ {
+			if err := bs.bt.AddBlock(hdr[i], time.Unix(int64(1000+i), 0)); err != nil {
+				return "err:addblock:" + err.Error()
+			}
+			bs.headers[hdr[i].Hash()] = hdr[i]
+		}
+		bs.head = hdr[0]
+		// the round before the first simulated one finalised the genesis block
+		bs.finRound = map[[2]uint64]common.Hash{{c22Round - 1, c22SetID}: hdr[0].Hash()}
+		bs.highest = [2]uint64{c22Round - 1, c22SetID}
+		s := &Service{
+			blockState:         bs,
+			grandpaState:       &c22GrandpaState{},
+			keypair:            c22Keypairs[v],
+			authority:          true,
+			network:            c22Network{},
+			state:              NewState(voters, c22SetID, c22Round),
+			prevotes:           new(sync.Map),
+			precommits:         new(sync.Map),
+			pvEquivocations:    make(map[ed25519.PublicKeyBytes][]*SignedVote),
+			pcEquivocations:    make(map[ed25519.PublicKeyBytes][]*SignedVote),
+			preVotedBlock:      make(map[uint64]*Vote),
+			bestFinalCandidate: make(map[uint64]*Vote),
+			head:               bs.head,
+			resumed:            make(chan struct{}),
+			telemetry:          c22Telemetry{},
+			interval:           time.Second,
+		}
+		s.paused.Store(false)
+		s.tracker = newTracker(bs, nil)
+		svc[v] = s
+		bss[v] = bs
+		setBest(v)
+	}
+	blk := func(h common.Hash) string {
+		if i, ok := index[h]; ok {
+			return vu.X(uint64(i))
+		}
+		return "?"
+	}
+	voteStr := func(v Vote) string { return blk(v.Hash) + "." + vu.X(uint64(v.Number)) }
+	sign := func(v int, vote *Vote, stage Subround, round uint64) *VoteMessage {
+		msg, err := scale.Marshal(FullVote{Stage: stage, Vote: *vote, Round: round, SetID: c22SetID})
+		if err != nil {
+			panic(err)
+		}
+		sig, err := c22Keypairs[v].Sign(msg)
+		if err != nil {
+			panic(err)
+		}
+		return &VoteMessage{Round: round, SetID: c22SetID, Message: SignedMessage{
+			Stage: stage, BlockHash: vote.Hash, Number: vote.Number,
+			Signature:   ed25519.NewSignatureBytes(sig),
+			AuthorityID: c22Keypairs[v].Public().(*ed25519.PublicKey).AsBytes(),
+		}}
+	}
+	var pool []*VoteMessage
+	prevoted := make([]bool, nh)
+	precommitted := make([]bool, nh)
+	finalisedNow := make([]bool, nh)
+	var out []string
+	if f[5] != "-" {
+		for _, op := range strings.Split(f[5], ",") {
+			switch op[0] {
+			case 'v':
+				i := int(vu.UnX(op[1:]))
+				if i >= nh {
+					return "err:badinput"
+				}
+				if prevoted[i] {
+					pool = append(pool, nil)
+					out = append(out, "dup")
+					continue
+				}
+				s := svc[i]
+				pv, err := s.determinePreVote()
+				if err != nil {
+					pool = append(pool, nil)
+					out = append(out, fmt.Sprintf("e%x", c22Class(err)))
+					continue
+				}
+				spv, vm, err := s.createSignedVoteAndVoteMessage(pv, prevote)
+				if err != nil {
+					return "err:sign"
+				}
+				s.prevotes.Store(s.publicKeyBytes(), spv)
+				prevoted[i] = true
+				pool = append(pool, vm)
+				out = append(out, voteStr(*pv))
+			case 'c':
+				i := int(vu.UnX(op[1:]))
+				if i >= nh {
+					return "err:badinput"
+				}
+				if precommitted[i] {
+					pool = append(pool, nil)
+					out = append(out, "dup")
+					continue
+				}
+				s := svc[i]
+				ghost, err := s.getPreVotedBlock()
+				if err != nil {
+					pool = append(pool, nil)
+					out = append(out, fmt.Sprintf("e%x", c22Class(err)))
+					continue
+				}
+				total, err := s.getTotalVotesForBlock(ghost.Hash, prevote)
+				if err != nil {
+					pool = append(pool, nil)
+					out = append(out, fmt.Sprintf("e%x", c22Class(err)))
+					continue
+				}
+				if total <= s.state.threshold() {
+					pool = append(pool, nil)
+					out = append(out, "wait")
+					continue
+				}
+				pc, err := s.determinePreCommit()
+				if err != nil {
+					pool = append(pool, nil)
+					out = append(out, fmt.Sprintf("e%x", c22Class(err)))
+					continue
+				}
+				spc, vm, err := s.createSignedVoteAndVoteMessage(pc, precommit)
+				if err != nil {
+					return "err:sign"
+				}
+				s.precommits.Store(s.publicKeyBytes(), spc)
+				precommitted[i] = true
+				pool = append(pool, vm)
+				out = append(out, voteStr(*pc))
+			case 'f':
+				i := int(vu.UnX(op[1:]))
+				if i >= nh {
+					return "err:badinput"
+				}
+				if finalisedNow[i] {
+					out = append(out, "done")
+					continue
+				}
+				before := len(bss[i].finalised)
+				ok, err := svc[i].attemptToFinalize()
+				switch {
+				case err != nil:
+					out = append(out, fmt.Sprintf("e%x", c22Class(err)))
+				case ok && len(bss[i].finalised) == before+1:
+					finalisedNow[i] = true
+					setBest(i) // dot/state prunes the forks that do not contain the finalised block
+					out = append(out, "1."+blk(bss[i].finalised[before]))
+				case ok:
+					out = append(out, "1.none")
+				default:
+					out = append(out, "0")
+				}
+			case 'n':
+				i := int(vu.UnX(op[1:]))
+				if i >= nh {
+					return "err:badinput"
+				}
+				if !finalisedNow[i] {
+					out = append(out, "wait")
+					continue
+				}
+				if err := svc[i].initiateRound(); err != nil {
+					out = append(out, fmt.Sprintf("e%x", c22Class(err)))
+					continue
+				}
+				if svc[i].state.round != c22Round+uint64(ridx[i])+1 {
+					out = append(out, fmt.Sprintf("badround%x", svc[i].state.round))
+					continue
+				}
+				ridx[i]++
+				prevoted[i], precommitted[i], finalisedNow[i] = false, false, false
+				setBest(i)
+				out = append(out, fmt.Sprintf("r%x.h%s", ridx[i], blk(svc[i].head.Hash())))
+			case 'd':
+				g := strings.Split(op[1:], ".")
+				i, m := int(vu.UnX(g[0])), int(vu.UnX(g[1]))
+				if i >= nh {
+					return "err:badinput"
+				}
+				if m >= len(pool) || pool[m] == nil {
+					out = append(out, "nomsg")
+					continue
+				}
+				_, err := svc[i].validateVoteMessage(peer.ID("verif"), pool[m])
+				out = append(out, fmt.Sprintf("%x", c22Class(err)))
+			case 'b':
+				g := strings.Split(op[1:], ".")
+				if len(g) != 4 {
+					return "err:badinput"
+				}
+				j, b, r := int(vu.UnX(g[0])), int(vu.UnX(g[2])), vu.UnX(g[3])
+				if j < nh || j >= n || b >= k {
+					return "err:badinput"
+				}
+				stage := prevote
+				if g[1] == "c" {
+					stage = precommit
+				}
+				pool = append(pool, sign(j, &Vote{Hash: hdr[b].Hash(), Number: uint32(hdr[b].Number)}, stage, c22Round+r)) //nolint:gosec
+				out = append(out, "-")
+			default:
+				return "err:badinput"
+			}
+		}
+	}
+	if len(out) == 0 {
+		return "-"
+	}
+	return strings.Join(out, ",")
+}
 func c22Tree(r *vu.RNG, k int) []uint64 {
 	p := make([]uint64, 0, k)
 	mode := r.Intn(4)
